@@ -343,7 +343,20 @@ Definition tabH (t : list (bytes * bytes)) (m : bytes) : bytes :=
   | None => []
   end.
 
-Inductive hcase := HC (tab : list (bdsl * bdsl)) (c : case).
+(* [HSeq tab steps]: observations made one after the other on ONE set of parsed objects of the
+   implementation (the same abi.Entry / abi.ABI for all steps, harness/cmd/c12/seq.go).  The model is a
+   function of the entry definition, so every step is checked exactly like a stand-alone case: an
+   implementation whose answer depends on what was asked before fails the step where it deviates.
+   The result is the code of the first failing step. *)
+Inductive hcase :=
+| HC (tab : list (bdsl * bdsl)) (c : case)
+| HSeq (tab : list (bdsl * bdsl)) (steps : list case).
+
+Fixpoint first_code (H : bytes -> bytes) (l : list case) : N :=
+  match l with
+  | [] => 0
+  | c :: t => let r := check_case H c in if (r =? 0)%N then first_code H t else r
+  end.
 
 Definition check_hcase (hc : hcase) : N :=
   match hc with
@@ -352,6 +365,9 @@ Definition check_hcase (hc : hcase) : N :=
       if match c with CSig _ _ _ _ _ => negb (forallb (fun p => bytes_eqb (keccak256 (fst p)) (snd p)) t) | _ => false end
       then 20
       else check_case (tabH t) c
+  | HSeq tab steps =>
+      let t := map (fun p : bdsl * bdsl => (bexpand (fst p), bexpand (snd p))) tab in
+      first_code (tabH t) steps
   end.
 
 Fixpoint mismatches_go (i : N) (l : list hcase) : list (N * N) :=
